@@ -92,3 +92,26 @@ def knapsack_eighths_generator(num_items: int, total_budget: float) -> Any:
                          remaining_budget=jnp.array(self.total_budget, float), key=key)
 
     return EighthsGenerator(num_items, total_budget)
+
+
+def maze_boxed_in_generator() -> Any:
+    """A user-written Maze generator (subclass of the public ``Generator``): after one step to the right the agent sits in
+    a dead-end cell; a second generator variant walls the agent in completely, so that no action is available at all (the
+    env then ends the episode - an ending its docstring does not list, reachable only with such a level)."""
+    import jax.numpy as jnp
+    from jumanji.environments.routing.maze.generator import Generator
+    from jumanji.environments.routing.maze.types import Position, State
+
+    class BoxedInGenerator(Generator):
+        def __init__(self) -> None:
+            super().__init__(num_rows=3, num_cols=4)
+
+        def __call__(self, key: Any) -> Any:
+            walls = jnp.ones((3, 4), bool)
+            walls = walls.at[1, 1].set(False)            # the agent's cell: walls on all four sides
+            walls = walls.at[0, 3].set(False).at[1, 3].set(False).at[2, 3].set(False)  # a corridor with the target
+            return State(agent_position=Position(row=jnp.array(1, jnp.int32), col=jnp.array(1, jnp.int32)),
+                         target_position=Position(row=jnp.array(2, jnp.int32), col=jnp.array(3, jnp.int32)),
+                         walls=walls, action_mask=None, key=key, step_count=jnp.array(0, jnp.int32))
+
+    return BoxedInGenerator()
